@@ -390,6 +390,8 @@ pub struct C11State {
     /// the delivery under way is the honest answer to the proof request that is outstanding
     /// for its session: (session, request bytes as the client stores them)
     pub answers_outstanding: Option<(usize, Vec<u8>)>,
+    /// sessions a GetLastStateProof was sent to while the current delivery was handled
+    pub proof_requested_in_event: HashSet<usize>,
 }
 
 fn c11_edge_ok(from: &str, to: &str) -> bool {
@@ -1056,7 +1058,15 @@ pub fn c11_on_boot(ck: &mut Checker, _sim: &mut Sim) {
     ck.c11.names.clear();
     ck.c11.inflight.clear();
 }
-pub fn c11_on_client_send(_ck: &mut Checker, _sim: &mut Sim, _s: usize, _p: Proto, _d: &Bytes) {}
+pub fn c11_on_client_send(ck: &mut Checker, _sim: &mut Sim, s: usize, p: Proto, d: &Bytes) {
+    if p == Proto::LightClient {
+        if let Ok(m) = packed::LightClientMessageReader::from_compatible_slice(d) {
+            if let packed::LightClientMessageUnionReader::GetLastStateProof(_) = m.to_enum() {
+                ck.c11.proof_requested_in_event.insert(s);
+            }
+        }
+    }
+}
 pub fn c11_on_ban(_ck: &mut Checker, _sim: &mut Sim, _s: usize, _r: &str) {}
 pub fn c11_on_disconnect(ck: &mut Checker, _sim: &mut Sim, s: usize, _m: &str) {
     if ck.c11.in_refresh_tick {
@@ -1113,6 +1123,7 @@ pub fn c11_on_session_closed(ck: &mut Checker, sim: &mut Sim, s: usize, _p: usiz
 pub fn c11_before(ck: &mut Checker, sim: &mut Sim, s: usize, _p: Proto, _d: &Bytes, t: &Tag) {
     c11_note_inflight(ck, sim);
     ck.c11.answers_outstanding = None;
+    ck.c11.proof_requested_in_event.clear();
     if t.kind == Kind::SendLastStateProof && t.honest && !t.layout.as_ref().map(|l| l.tip_changed).unwrap_or(true) {
         if let (Some(c), Some(req)) = (sim.client.as_ref(), t.request.as_ref()) {
             let outstanding = c
@@ -1169,7 +1180,9 @@ pub fn c11_after(ck: &mut Checker, sim: &mut Sim, s: usize, _p: Proto, _d: &Byte
         let tip_hash = c.storage.get_last_state().1.calc_header_hash();
         let stored_td = c.storage.get_last_state().0;
         sim.stat("probe.c11.solicited_proof_delivered");
-        if still.as_ref() == Some(&req) && sim.sessions.contains_key(&s) {
+        // a re-request (tau re-check) may carry exactly the same content: it was sent just now
+        let re_requested = ck.c11.proof_requested_in_event.contains(&s);
+        if still.as_ref() == Some(&req) && sim.sessions.contains_key(&s) && !re_requested {
             // known variant: the sampled answer failed the (probabilistic) tau check, and a new
             // request cannot be built because another peer has proven this very tip meanwhile
             let asked_tip = packed::GetLastStateProofReader::from_slice(&req).ok().map(|r| r.last_hash().to_entity());
